@@ -11,6 +11,7 @@ import (
 	"runtime"
 	"strings"
 	"sync"
+	"sync/atomic"
 
 	"github.com/ipld/go-ipld-prime/codec/dagcbor"
 	"github.com/ipld/go-ipld-prime/codec/dagjson"
@@ -198,7 +199,9 @@ func (w *ConcWorld) Close() {
 	}
 }
 
-var ConcOps = []string{"bind-plain", "bind-converter", "focus-get", "transform", "compile-selector", "load-fs", "read-basic", "read-bind", "read-bind-repr", "deep-equal", "copy", "encode-cbor", "encode-json", "walk", "load",
+var freshNext int64
+
+var ConcOps = []string{"bind-plain", "bind-converter", "focus-get", "transform", "compile-selector", "load-fs", "infer-first", "read-basic", "read-bind", "read-bind-repr", "deep-equal", "copy", "encode-cbor", "encode-json", "walk", "load",
 	"loadraw", "build-basic", "build-bind", "wrap-explicit", "proto-inferred", "struct-lookup", "ts-clone", "ts-merge"}
 
 func projStr(n datamodel.Node) (string, error) {
@@ -272,7 +275,9 @@ func readAll(n datamodel.Node) (string, error) {
 
 // freshStruct: a struct type nobody has looked a field up on yet, and a node of it (per mix).
 type freshStruct struct {
-	node datamodel.Node
+	node  datamodel.Node
+	mu    sync.Mutex
+	infer map[int]int // goroutine -> index of the fresh Go type it binds first in this mix
 }
 
 func newFreshStruct() *freshStruct {
@@ -283,7 +288,7 @@ func newFreshStruct() *freshStruct {
 	ts.Accumulate(schema.SpawnStruct("HPerson", []schema.StructField{
 		schema.SpawnStructField("Name", "String", false, false), schema.SpawnStructField("Age", "Int", false, false)},
 		schema.SpawnStructRepresentationMap(nil)))
-	return &freshStruct{bindnode.Wrap(&HPerson{"ada", 36}, ts.TypeByName("HPerson"))}
+	return &freshStruct{node: bindnode.Wrap(&HPerson{"ada", 36}, ts.TypeByName("HPerson"))}
 }
 
 // Do performs one operation and returns a digest of its result.
@@ -400,6 +405,61 @@ func (w *ConcWorld) Do(op string, g int, fresh *freshStruct) (string, error) {
 		count := 0
 		err = traversal.Progress{Cfg: w.cfg}.WalkMatching(w.gr.Root, sel, func(traversal.Progress, datamodel.Node) error { count++; return nil })
 		return fmt.Sprintf("%d matches", count), err
+	case "infer-first":
+		// the FIRST inferred bind of a Go type nobody has bound before (a pool of fresh named types; once it is used up
+		// the operation is an ordinary inferred bind), followed by a build through the prototype
+		// (one fresh type per goroutine and mix: its first iteration is the first bind, the later ones are ordinary)
+		claim := func() int {
+			i := int(atomic.AddInt64(&freshNext, 1)-1)*3 + 240 // (the first 240 belong to vh bindrace; every third type nests another one: the plain ones only)
+			if i >= len(FreshTypes) {
+				return 0
+			}
+			return i
+		}
+		i := 0
+		if fresh == nil {
+			i = claim()
+		} else {
+			fresh.mu.Lock()
+			if fresh.infer == nil {
+				fresh.infer = map[int]int{}
+			}
+			var ok bool
+			if i, ok = fresh.infer[g]; !ok {
+				i = claim()
+				fresh.infer[g] = i
+			}
+			fresh.mu.Unlock()
+		}
+		p := bindnode.Prototype(FreshTypes[i], nil)
+		st, ok := p.Type().(*schema.TypeStruct)
+		if !ok {
+			return "", fmt.Errorf("inferred type is %T", p.Type())
+		}
+		d := ""
+		for _, f := range st.Fields() {
+			d += f.Name() + "=" + f.Type().Name() + " "
+		}
+		nb := p.NewBuilder()
+		ma, err := nb.BeginMap(2)
+		if err != nil {
+			return "", err
+		}
+		va, err := ma.AssembleEntry("A")
+		if err != nil {
+			return "", err
+		}
+		va.AssignInt(7)
+		va, err = ma.AssembleEntry("B")
+		if err != nil {
+			return "", err
+		}
+		va.AssignString("x")
+		if err := ma.Finish(); err != nil {
+			return "", err
+		}
+		r, err := projStr(nb.Build())
+		return d + r, err
 	case "bind-plain":
 		// The Go type HConv holds a Go STRUCT where the schema type HConv has a String: without a converter the pair is
 		// incompatible and the binding must be refused -- whoever else bound the same pair before, and however.
